@@ -48,6 +48,8 @@ func runC18(c *core.Ctx) {
 	c.MinInstances("C18-KEYS", 2)
 	c.MinInstances("C18-ID", 1)
 	c.MinInstances("C18-CMPP", 2)
+	c.MinInstances("C18-PRIM", 2)
+	importRules(c, "C20", "C18-PRIM", func(o core.Obligation) bool { return o.Rule == "C20-TERMINAL" || o.Rule == "C20-WHO" })
 	c.Trust("strings.Index contract", "hex.EncodeToString", "SMPP 3.4 appendix B and SMGP 3.0.3 receipt format for the key table")
 	c.NotDecided("order independence for values that themselves contain key tokens (excluded by the property)")
 	finderRule(c, "smpp/smpp34", "findSubValue", false)
